@@ -10,7 +10,7 @@ import (
 type c13Case struct {
 	Prefix []int `json:"prefix"` // indices into c13PrefixItems
 	Fault  int   `json:"fault"`
-	Wrap   int   `json:"wrap"` // 0 top level, 1 inside an @if body, 2 inside an @each body, 3 inside the @else branch
+	Wrap   int   `json:"wrap"`  // 0 top level, 1 inside an @if body, 2 inside an @each body, 3 inside the @else branch
 	Where  int   `json:"where"` // 0 string API, 1 page file, 2 layout file, 3 component file, 4 page that uses a layout (fault in the page's insert)
 }
 
@@ -30,11 +30,11 @@ var c13PrefixItems = []string{
 }
 
 type c13Fault struct {
-	name   string
-	src    string
-	extra  int    // lines between the start of src and the line the error must name
-	load   bool   // detected while loading (parse error)
-	tree   string // "", "insert", "component": only in tree mode
+	name  string
+	src   string
+	extra int    // lines between the start of src and the line the error must name
+	load  bool   // detected while loading (parse error)
+	tree  string // "", "insert", "component": only in tree mode
 }
 
 var c13Faults = []c13Fault{
